@@ -65,6 +65,24 @@ func isIntegerSym(s *Sym) bool {
 	return ok && b.Info()&types.IsInteger != 0
 }
 
+// litOfRaw is litOf without the integer rewriting NOT (a < b) -> (b <= a): the literal keeps the
+// comparison of its value, so that its truth can be compared with an assumption about that value.
+func (m *Model) litOfRaw(cond ssa.Value, truth bool) Lit {
+	s := m.Sym.Of(cond)
+	for {
+		switch {
+		case s.Op == "not":
+			s, truth = s.Args[0], !truth
+			continue
+		case s.Op == "bin" && s.Name == "!=":
+			s, truth = &Sym{Op: "bin", Name: "==", Args: s.Args, V: s.V, Typ: s.Typ}, !truth
+			continue
+		}
+		break
+	}
+	return Lit{S: s, Truth: truth}
+}
+
 func (m *Model) litOf(cond ssa.Value, truth bool, ifi *ssa.If) Lit {
 	s, t := normLit(m.Sym.Of(cond), truth)
 	return Lit{S: s, Truth: t, If: ifi}
@@ -483,16 +501,41 @@ func inLoop(b *ssa.BasicBlock) bool {
 // go/ssa introduces in functions with defers (store; rundefers; load; return).
 func returnValue(ret *ssa.Return, i int) ssa.Value {
 	v := ret.Results[i]
+	// named results with a defer are spilled twice (`*r = x; t = *r; *r = t; rundefers; t' = *r`)
+	for n := 0; n < 4; n++ {
+		w := lastStoreBefore(v)
+		if w == nil {
+			break
+		}
+		v = w
+	}
+	return v
+}
+
+// lastStoreBefore: v is a load of a local cell; the value of the last store to that cell before
+// the load, scanning backwards through single-predecessor chains (nil when there is none or the
+// cell escapes into a closure).
+func lastStoreBefore(v ssa.Value) ssa.Value {
 	u, ok := v.(*ssa.UnOp)
 	if !ok || u.Op != token.MUL {
-		return v
+		return nil
 	}
 	al, ok := u.X.(*ssa.Alloc)
 	if !ok {
-		return v
+		return nil
 	}
-	// last store to al before the load, scanning backwards through single-predecessor chains
-	b := ret.Block()
+	for _, r := range *al.Referrers() {
+		switch r := r.(type) {
+		case *ssa.Store:
+			if r.Addr != al {
+				return nil
+			}
+		case *ssa.UnOp, *ssa.DebugRef:
+		default:
+			return nil
+		}
+	}
+	b := u.Block()
 	idx := instrIndex(u)
 	for hops := 0; hops < 8; hops++ {
 		for j := idx - 1; j >= 0; j-- {
@@ -501,12 +544,12 @@ func returnValue(ret *ssa.Return, i int) ssa.Value {
 			}
 		}
 		if len(b.Preds) != 1 {
-			return v
+			return nil
 		}
 		b = b.Preds[0]
 		idx = len(b.Instrs)
 	}
-	return v
+	return nil
 }
 
 // deadBlocks holds the blocks that cannot execute because a branch condition is a constant
@@ -808,6 +851,22 @@ func (m *Model) resultPaths(l Lit) ([]map[string]Lit, bool) {
 		}
 		return out
 	}
+	// withValue: a boolean result that is not a constant carries its own truth: returning `a && b`
+	// as true means b held on that path
+	wantBool, isBoolWant := false, false
+	if want == "true" || want == "false" {
+		isBoolWant = true
+		wantBool = (want == "true") != neg
+	}
+	withValue := func(lits []Lit, v ssa.Value) []Lit {
+		if !isBoolWant || v == nil || !isBoolType(v.Type()) {
+			return lits
+		}
+		if _, isC := v.(*ssa.Const); isC {
+			return lits
+		}
+		return append(append([]Lit{}, lits...), m.litOf(v, wantBool, nil))
+	}
 	var paths []map[string]Lit
 	_, live := m.Facts(h, nil)
 	for _, b := range h.Blocks {
@@ -834,7 +893,7 @@ func (m *Model) resultPaths(l Lit) ([]map[string]Lit, bool) {
 				if deadEdge(pred, si) || !live[pred] {
 					continue
 				}
-				paths = append(paths, export(m.EdgeLits(pred, si), passesDemote(pred) || hasDemote(b)))
+				paths = append(paths, export(withValue(m.EdgeLits(pred, si), e), passesDemote(pred) || hasDemote(b)))
 			}
 			continue
 		}
@@ -847,13 +906,13 @@ func (m *Model) resultPaths(l Lit) ([]map[string]Lit, bool) {
 			for _, pred := range b.Preds {
 				for si, sx := range pred.Succs {
 					if sx == b && !deadEdge(pred, si) && live[pred] {
-						paths = append(paths, export(m.EdgeLits(pred, si), passesDemote(pred)))
+						paths = append(paths, export(withValue(m.EdgeLits(pred, si), v), passesDemote(pred)))
 					}
 				}
 			}
 			continue
 		}
-		paths = append(paths, export(m.Guards(b), passesDemote(b)))
+		paths = append(paths, export(withValue(m.Guards(b), v), passesDemote(b)))
 	}
 	m.rpMemo[key] = paths
 	return paths, true
@@ -1061,6 +1120,8 @@ func (m *Model) exploreImpl(b *ssa.BasicBlock, succ int, startAt ssa.Instruction
 								vals[j] = constString(k)
 							} else if av, ok := m.assumedValue(rv); ok {
 								vals[j] = fmt.Sprint(av)
+							} else if definitelyNonNil(rv) {
+								vals[j] = "!nil" // differs from the constant nil in every comparison
 							} else if ph, isPhi := rv.(*ssa.Phi); isPhi && ph.Block() == x && cameFrom != nil {
 								// the value returned along the edge this path took
 								for pi, pp := range x.Preds {
@@ -1110,7 +1171,7 @@ func (m *Model) exploreImpl(b *ssa.BasicBlock, succ int, startAt ssa.Instruction
 				}
 			}
 			if ifi, ok := x.Instrs[len(x.Instrs)-1].(*ssa.If); ok && len(x.Succs) == 2 && len(m.assume) > 0 {
-				l := m.litOf(ifi.Cond, i == 0, ifi)
+				l := m.litOfRaw(ifi.Cond, i == 0)
 				if l.S.V != nil {
 					if av, ok := m.assume[l.S.V]; ok && av != l.Truth {
 						continue // this edge contradicts an assumption
@@ -1251,7 +1312,7 @@ func (m *Model) assumedValue(v ssa.Value) (bool, bool) {
 	if len(m.assume) == 0 || !isBoolType(v.Type()) {
 		return false, false
 	}
-	l := m.litOf(v, true, nil)
+	l := m.litOfRaw(v, true)
 	if l.S.V == nil {
 		return false, false
 	}
@@ -1341,4 +1402,33 @@ func (m *Model) controlConds(at ssa.Instruction) []Lit {
 	}
 	sort.Slice(out, func(i, j int) bool { return out[i].S.String() < out[j].S.String() })
 	return out
+}
+
+
+// definitelyNonNil: a freshly allocated object (or an interface holding one).
+func definitelyNonNil(v ssa.Value) bool {
+	for i := 0; i < 4; i++ {
+		switch x := v.(type) {
+		case *ssa.Alloc:
+			return true
+		case *ssa.MakeInterface:
+			v = x.X
+		case *ssa.ChangeInterface:
+			v = x.X
+		case *ssa.MakeClosure, *ssa.MakeChan, *ssa.MakeMap, *ssa.MakeSlice:
+			return true
+		case *ssa.Call:
+			// documented never to return nil
+			if g := x.Call.StaticCallee(); g != nil {
+				switch g.String() {
+				case "fmt.Errorf", "errors.New":
+					return true
+				}
+			}
+			return false
+		default:
+			return false
+		}
+	}
+	return false
 }
